@@ -687,6 +687,8 @@ func (p *Program) inlineAt(cs *CallSite, cand *inlineCand, tag string, read func
 			role = ""
 		}
 	}
+	// tail call: `return H(..)` - every return of H becomes a return of the caller
+	tail := role == "return" && len(cand.defers) == 0
 	// continuation inlining: `if v := H(..); v != nil { ...; return }` and
 	// `if [!]H(..) { ...; return }` are rewritten so that every return of H
 	// tests its own value and runs the caller's branch itself - the shape the
@@ -866,6 +868,16 @@ func (p *Program) inlineAt(cs *CallSite, cand *inlineCand, tag string, read func
 			if inLit(fd.Body, x) {
 				return textEdit{}, false, true
 			}
+			if tail {
+				if len(x.Results) == 0 {
+					return textEdit{}, false, true // bare return with named results: not supported here
+				}
+				var parts []string
+				for _, r := range x.Results {
+					parts = append(parts, bodyEdits(r.Pos(), r.End(), nil))
+				}
+				return textEdit{off(dfile, x.Pos()), off(dfile, x.End()), "return " + strings.ReplaceAll(strings.Join(parts, ", "), "\n", " ")}, true, false
+			}
 			if contKind != "" && len(x.Results) == 1 {
 				then := string(csrc[off(cfile, contThen.Lbrace) : off(cfile, contThen.Rbrace)+1])
 				e := bodyEdits(x.Results[0].Pos(), x.Results[0].End(), nil)
@@ -969,6 +981,33 @@ func (p *Program) inlineAt(cs *CallSite, cand *inlineCand, tag string, read func
 	}
 	gen.WriteString("}\n")
 	fmt.Fprintf(&gen, "//line %s:%d\n", cfile.Name(), sline)
+	if tail {
+		bare := false
+		ast.Inspect(fd.Body, func(n ast.Node) bool {
+			switch x := n.(type) {
+			case *ast.FuncLit:
+				return false
+			case *ast.ReturnStmt:
+				if len(x.Results) == 0 && nres > 0 {
+					bare = true
+				}
+			}
+			return true
+		})
+		endsRet := false
+		if n := len(fd.Body.List); n > 0 {
+			_, endsRet = fd.Body.List[n-1].(*ast.ReturnStmt)
+		}
+		if !bare && endsRet {
+			var g2 strings.Builder
+			g2.WriteString("{ " + pdecl.String() + "\n")
+			fmt.Fprintf(&g2, "//line %s:%d\n", dfile.Name(), dline)
+			g2.WriteString("{" + body + "}\n}")
+			fmt.Fprintf(&g2, "\n//line %s:%d\n", cfile.Name(), eline)
+			return []textEdit{{off(cfile, stmt.Pos()), off(cfile, stmt.End()), g2.String()}}, stmt, true
+		}
+		return nil, nil, false
+	}
 	if contKind != "" {
 		var g2 strings.Builder
 		g2.WriteString(contPre + "{ " + pdecl.String() + "\n")
